@@ -37,6 +37,31 @@ Definition op_okb {V} (lib : list lib_gate) (o : op V) : bool :=
                         else true) lib
   end.
 
+(* ---- CircuitGate.get_qasm_gate_def: formal parameters of the body lines ----
+   gate circuitgate_<id> (p0, ..., p{n-1}) q0, ... {  <one line per body operation>  }
+       param_index = 0
+       for op in self._circuit:
+           params = [f'p{i}' for i in range(param_index, param_index + op.num_params)]
+           <print the line: circuitgate_<id'>(params) ...  or  qasm_name(params) ...>
+           param_index += op.num_params
+   A body operation is (is it a nested CircuitGate?, num_params); both branches advance the
+   offset.  The result lists, per body line, the indices i of its formals p_i. *)
+Fixpoint body_formals_from (ops : list (bool * nat)) (param_index : nat) : list (list nat) :=
+  match ops with
+  | [] => []
+  | (nested, np) :: t =>
+      seq param_index np ::
+      body_formals_from t (if nested then param_index + np else param_index + np)
+  end.
+Definition body_formals (ops : list (bool * nat)) : list (list nat) := body_formals_from ops 0.
+(* header: the formals p0 .. p{num_params-1}; CircuitGate.num_params = sum over the body *)
+Definition gate_num_params (ops : list (bool * nat)) : nat := fold_right (fun o a => snd o + a) 0 ops.
+Definition header_formals (ops : list (bool * nat)) : list nat := seq 0 (gate_num_params ops).
+
+(* decoder side (QGate.build with formals p0..pk): a body line whose formals are the
+   indices sl receives the entries sl of the actual parameter vector *)
+Definition select {A} (v : list A) (sl : list nat) : list (option A) := map (nth_error v) sl.
+
 Section Enc.
 Context {V : Type}.
 Variable O : ops V.
